@@ -232,7 +232,10 @@ def run(v, O):
     out.append(('the base environment keeps its values', O.same(env1.data(Format.TUPLE).get('side'), (3.0, 'cm'))))
     return out
 '''
-SLICES = [('string slice', 'person str = "Will Smith"\nsurname str = {?person}[5:]', 'surname', 'Smith'), ('string slice front', 'p str = "Will Smith"\ns str = {?p}[:4]', 's', 'Will'),
+SLICES = [('matrix element with a zero row index', 'm int[2,2] = [[1,2],[3,4]]\nx int = {?m}[0,1]', 'x', 2), ('3-d array: zero index, then index', 't int[2,2,2] = [[[1,2],[3,4]],[[5,6],[7,8]]]\nx int[2] = {?t}[0,1]', 'x', [3, 4]),
+          ('matrix: zero row index, then range', 'm int[2,2] = [[1,2],[3,4]]\nx int[1] = {?m}[0,1:]', 'x', [2]), ('matrix element with a zero column index', 'm int[2,2] = [[1,2],[3,4]]\nx int = {?m}[1,0]', 'x', 3),
+          ('matrix element zero zero', 'm float[2,2] = [[1.5,2],[3,4]] m\nx float = {?m}[0,0]', 'x', 1.5), ('3-d array: all indices zero', 't int[2,2,2] = [[[1,2],[3,4]],[[5,6],[7,8]]]\nx int = {?t}[0,0,0]', 'x', 1),
+          ('3-d array: zero, range, zero', 't int[2,2,2] = [[[1,2],[3,4]],[[5,6],[7,8]]]\nx int[2] = {?t}[0,:,0]', 'x', [1, 3]), ('string slice', 'person str = "Will Smith"\nsurname str = {?person}[5:]', 'surname', 'Smith'), ('string slice front', 'p str = "Will Smith"\ns str = {?p}[:4]', 's', 'Will'),
           ('single array element', 'sizes float[3] = [34,23.34,1e34] cm\nmy float = {?sizes}[1]', 'my', 23.34), ('array range', 'a int[4] = [1,2,3,4]\nb int[2] = {?a}[1:3]', 'b', [2, 3]),
           ('matrix column', 'm float[2,2] = [[34,23.34],[1,1e34]] cm\nc float[2] = {?m}[:,1]', 'c', [23.34, 1e34]), ('matrix row', 'm int[2,2] = [[1,2],[3,4]]\nr int[2] = {?m}[1,:]', 'r', [3, 4]),
           ('matrix element', 'm int[2,2] = [[1,2],[3,4]]\ne int = {?m}[1,0]', 'e', 3), ('whole array', 'a int[3] = [1,2,3]\nb int[3] = {?a}', 'b', [1, 2, 3]),
